@@ -20,7 +20,44 @@ func propC16(c *Ctx) {
 	cui := w.Fn("shovel/config", "CheckUserInput")
 	vfr := w.Fn("shovel/config", "ValidateFilterRefs")
 	arf := w.Fn("shovel/config", "(*Integration).AddRequiredFields")
-	aui := w.Fn("shovel/config", "AddUniqueIndex")
+	aui := w.FnOpt("shovel/config", "AddUniqueIndex")
+	auiReturns := false // the key is computed by a function and stored by ValidateFix itself
+	if aui == nil {
+		// by role: the function ValidateFix calls once that examines the identity names
+		// (constants in its body, or the rows of a table it ranges over)
+		var cands []*ssa.Function
+		for _, ci := range callsIn(vf) {
+			h := staticCallee(ci)
+			if h == nil || h.Blocks == nil || h.Pkg != vf.Pkg || h == arf || len(callsToFn(vf, h)) != 1 {
+				continue
+			}
+			names := map[string]bool{}
+			allInstrs(h, func(in ssa.Instruction) {
+				if st, ok := in.(*ssa.Store); ok {
+					if s, ok := constString(st.Val); ok {
+						names[s] = true
+					}
+				}
+			})
+			if rows, _, ok := rangedTable(w, h); ok {
+				for _, r := range rows {
+					for _, v := range r {
+						if s, ok := constString(v); ok {
+							names[s] = true
+						}
+					}
+				}
+			}
+			if names["tx_idx"] && names["log_idx"] && names["block_num"] {
+				cands = append(cands, h)
+			}
+		}
+		if len(cands) != 1 {
+			fatalf("anchor: function shovel/config.AddUniqueIndex not found")
+		}
+		aui = cands[0]
+		auiReturns = aui.Signature.Results().Len() == 1
+	}
 	vcr := w.Fn("shovel/config", "ValidateColRefs")
 	fIgs := w.Field("shovel/config", "Root", "Integrations")
 	fTable := w.Field("shovel/config", "Integration", "Table")
@@ -68,7 +105,12 @@ func propC16(c *Ctx) {
 	c.Check("R16.1", "ValidateFix/ValidateFilterRefs-error-returned", cVFR.Pos(), errReturned(cVFR), "a bad reference aborts validation")
 	c.Check("R16.1", "ValidateFix/ValidateColRefs-error-returned", cVCR.Pos(), errReturned(cVCR), "a missing column aborts validation")
 	c.Check("R16.1", "ValidateFix/order", vf.Pos(),
-		dominatesInstr(cCUI, cVFR) && dominatesInstr(cVFR, cARF) && dominatesInstr(cARF, cAUI) && dominatesInstr(cAUI, cVCR),
+		dominatesInstr(cCUI, cVFR) && dominatesInstr(cVFR, cARF) && dominatesInstr(cARF, cAUI) && (dominatesInstr(cAUI, cVCR) || (auiReturns && func() bool {
+			// the key step is conditional (only without a user key): it lies between the two others in every iteration
+			fwd, _ := reach(siteOf(cAUI), isInstr(cVCR), newCuts().addInstr(cARF))
+			back, _ := reach(siteOf(cVCR), isInstr(cAUI), newCuts().addInstr(cARF))
+			return dominatesInstr(cARF, cVCR) && fwd && !back
+		}())),
 		"CheckUserInput → ValidateFilterRefs → AddRequiredFields → AddUniqueIndex → ValidateColRefs")
 	// same element conf.Integrations[i], i ranging over all
 	elemOK := func(v ssa.Value, extra ...*types.Var) (bool, ssa.Value) {
@@ -87,6 +129,25 @@ func propC16(c *Ctx) {
 	}
 	ok1, i1 := elemOK(cARF.Call.Args[0])
 	ok2, i2 := elemOK(cAUI.Call.Args[0], fTable)
+	if !ok2 && auiReturns {
+		// the key is computed from the table's columns (`UniqueIndex(t.Columns)` with t = &conf.Integrations[i].Table)
+		a := stripConv(cAUI.Call.Args[0])
+		if u, isU := a.(*ssa.UnOp); isU && u.Op == token.MUL {
+			if fa, isFA := u.X.(*ssa.FieldAddr); isFA {
+				if f, _ := fieldOf(fa); f == w.Field("wpg", "Table", "Columns") {
+					base := fa.X
+					if bu, ok := base.(*ssa.UnOp); ok && bu.Op == token.MUL {
+						if al, ok := bu.X.(*ssa.Alloc); ok {
+							if cv := cellValue(al); cv != nil {
+								base = cv
+							}
+						}
+					}
+					ok2, i2 = elemOK(base, fTable)
+				}
+			}
+		}
+	}
 	ok3, i3 := elemOK(cVCR.Call.Args[0])
 	c.Check("R16.1", "ValidateFix/same-integration", vf.Pos(), ok1 && ok2 && ok3 && i1 == i2 && i2 == i3,
 		"the three per-integration steps are applied to the same element of conf.Integrations, for every index")
@@ -126,6 +187,12 @@ func propC16(c *Ctx) {
 		for _, r := range rows {
 			for k := range used {
 				if s, ok := constString(r[k]); ok {
+					possible[s] = true
+				}
+			}
+			// a plain list of names (`var identityColumns = []string{…}`): the element is the name
+			if len(used) == 0 && len(r) == 1 {
+				if s, ok := constString(r[0]); ok {
 					possible[s] = true
 				}
 			}
@@ -295,6 +362,74 @@ func propC16(c *Ctx) {
 				}
 			}
 		})
+		if auiReturns && cAUI != nil {
+			// ValidateFix stores what the function returned, only when the user gave no key:
+			// the call and the store sit on the `len(Unique) == 0` side
+			none, _ := cmpEdges(vf, func(b *ssa.BinOp) bool {
+				arg, ok := lenArg(b.X)
+				n, okc := constInt(b.Y)
+				return b.Op == token.EQL && ok && okc && n == 0 && isLoadOfField(arg, fUnique)
+			})
+			_, none2 := cmpEdges(vf, func(b *ssa.BinOp) bool {
+				arg, ok := lenArg(b.X)
+				n, okc := constInt(b.Y)
+				return (b.Op == token.GTR || b.Op == token.NEQ) && ok && okc && n == 0 && isLoadOfField(arg, fUnique)
+			})
+			none = append(none, none2...)
+			allInstrs(vf, func(in ssa.Instruction) {
+				st, ok := in.(*ssa.Store)
+				if !ok {
+					return
+				}
+				if f, _ := fieldOf(st.Addr); f != fUnique {
+					return
+				}
+				// the stored key contains the call's result
+				fromCall := false
+				var walk func(v ssa.Value, d int)
+				walk = func(v ssa.Value, d int) {
+					if d > 6 || fromCall {
+						return
+					}
+					v = stripConv(v)
+					if v == ssa.Value(cAUI) {
+						fromCall = true
+						return
+					}
+					switch x := v.(type) {
+					case *ssa.Call:
+						for _, a := range x.Call.Args {
+							if sl, isSl := a.(*ssa.Slice); isSl {
+								if vs, ok := varargValues(sl); ok {
+									for _, e := range vs {
+										walk(e, d+1)
+									}
+									continue
+								}
+							}
+							walk(a, d+1)
+						}
+					case *ssa.Phi:
+						for _, e := range x.Edges {
+							walk(e, d+1)
+						}
+					case *ssa.UnOp:
+						if al, ok := x.X.(*ssa.Alloc); ok {
+							if cv := cellValue(al); cv != nil {
+								walk(cv, d+1)
+							}
+						}
+					}
+				}
+				walk(st.Val, 0)
+				if fromCall {
+					okStore = true
+					if len(none) > 0 && guardedByEdges(vf, st, none) {
+						okUser = true
+					}
+				}
+			})
+		}
 		// every candidate is examined: the loop over the candidates ends only when they are exhausted
 		// (a `break` at the first absent candidate drops trace_action_idx / abi_idx from the key)
 		{
